@@ -2,7 +2,7 @@
 import os
 from . import core
 
-CFGS = ["sse2", "sse2-rel", "scalar", "coresimd"]
+CFGS = ["sse2", "sse2-rel", "scalar", "coresimd", "fma"]   # fma: +fma,+avx2 (implies sse3 / ssse3 / sse4.x): feature-gated swizzle fast paths
 EXPECT = ["swz:get:2", "swz:get:3", "swz:get:4", "swz:with:3", "swz:with:4"]
 
 
